@@ -168,7 +168,7 @@ Examples:
 		// If search failed, try recovery mechanisms
 		if len(results) == 0 {
 			searchRecovery := recovery.NewSearchRecovery()
-			recoveredResults, recoveryErr := searchRecovery.RecoverFromSearchFailure(query, nil, db)
+			recoveredResults, recoveryErr := searchRecovery.RecoverFromSearchFailureWithLimit(query, nil, db, cfg.MaxResults)
 			if recoveryErr == nil && len(recoveredResults) > 0 {
 				results = recoveredResults
 			}
